@@ -1212,7 +1212,13 @@ def get_node_type(element: DOMNode) -> int:
 
 
 def from_html(schema: Schema[Any, Any], html: str) -> JSONDict:
-    fragment = lxml.html.fragment_fromstring(html, create_parent="document-fragment")
+    # what `fragment_fromstring(html, create_parent="document-fragment")` does, with the
+    # leading text made XML-compatible before it is stored on the new root
+    parts = lxml.html.fragments_fromstring(html)
+    fragment = lxml.html.Element("document-fragment")
+    if parts and isinstance(parts[0], str):
+        fragment.text = xml_compatible(parts.pop(0))
+    fragment.extend(parts)
 
     prose_doc = DOMParser.from_schema(schema).parse(fragment)
 
